@@ -29,7 +29,7 @@ func (m minDistance) negative() distance        { return minDistance(s1.Negative
 func (m minDistance) infinity() distance        { return minDistance(s1.InfChordAngle()) }
 func (m minDistance) less(other distance) bool  { return m.chordAngle() < other.chordAngle() }
 func (m minDistance) sub(other distance) distance {
-	return minDistance(m.chordAngle() - other.chordAngle())
+	return minDistance(math.Max(0, float64(m.chordAngle()-other.chordAngle())))
 }
 func (m minDistance) chordAngleBound() s1.ChordAngle {
 	return m.chordAngle().Expanded(m.chordAngle().MaxAngleError())
